@@ -198,7 +198,7 @@ func runC15(c *fw.Ctx) {
 	}
 	depth := 3
 	if c.Thorough() {
-		depth = 4
+		depth = 5
 	}
 	for _, store := range []string{"mem", "file"} {
 		gcsBFS(c, "C15", store, 1, base, alpha, depth, false, c15Tag, store+"_histories")
